@@ -46,8 +46,9 @@ META = dict(
                'served first (C09_race_updates_adjacent / _disjoint, every history): the two serial orders differ exactly in who gets which range. '
                'These theorems are about SERIAL executions of the model; that the real code, run with two requests overlapping, is serialisable '
                'is CHECKED, not proved: the history op "race" (harness/batchdb/race.py) runs the real handlers of two requests A, B on the same '
-               'in-memory database so that A is suspended after k SQL statements of its read-only prefix (top-level SELECTs, locking or not, '
-               'possibly spanning several transactions of the handler; never after an INSERT/UPDATE/DELETE/CALL), then B runs -- to completion, '
+               'in-memory database so that A is suspended after k SQL statements of its read-only prefix (SELECTs, locking or not, at top level '
+               'or inside a called stored procedure such as commit_batch_update, whose body statements are counted one by one; possibly spanning '
+               'several transactions of the handler; never after an INSERT/UPDATE/DELETE), then B runs -- to completion, '
                'or, if it needs a lock A holds, up to that statement, then A finishes, then B resumes --, then A finishes. Executed interleavings '
                'are exactly: "A paused after a read-only prefix of k statements, B to completion (or blocked until A has finished)", for every k '
                'of the hand-written corpus/C09/races.json (every pause point of create_batch, create_update, create_groups, create_jobs, commit '
@@ -61,8 +62,9 @@ META = dict(
                'plain SELECT (copied tables swapped in), locking reads and DML read the latest committed rows (InnoDB REPEATABLE READ). Coarser locks only '
                'serialise more: every executed schedule is one InnoDB can produce with the same reads (a statement blocked here is the same statement '
                'arriving later there). Situations outside the model (the blocked request already has uncommitted writes; a lock cycle, which with table '
-               'granularity need not be an InnoDB deadlock -- the 1213 + retry path of gear.transaction is therefore NOT exercised; a consistent read of a '
-               'table written by both transactions; routine-internal reads under a stale snapshot) are detected and the two requests are then run serially '
+               'granularity need not be an InnoDB deadlock -- the 1213 + retry path of gear.transaction is therefore NOT exercised; a read inside a trigger '
+               'or stored function whose result differs between the transaction\'s snapshot and the latest committed rows -- which of the two it sees '
+               'depends on the binlog format) are detected and the two requests are then run serially '
                '(counted in the evidence as race/serial:*). NOT explored: finer interleavings in which BOTH transactions have pending writes (A paused '
                'after a write), more than two overlapping requests, overlaps with driver/worker transactions, row-level lock behaviour (gap locks, real '
                'deadlocks). '
@@ -214,6 +216,9 @@ def _client_oracle(ctx, cases):
     return fails, n
 
 
+CLIENT_OPS = ('create_batch', 'create_update', 'create_groups', 'create_jobs', 'commit')
+
+
 def _race_serial_oracle(ctx, named_histories, results):
     """Overlapping deliveries, on the implementation alone: for every executed race op (two requests A, B overlapping as described in
     META / harness/batchdb/race.py) of the given histories the SAME prefix is re-run on the real code with `A; B`, with `B; A` and --
@@ -226,7 +231,9 @@ def _race_serial_oracle(ctx, named_histories, results):
     for name, h, ents in zip(*named_histories, results):
         for i, (op, ent) in enumerate(zip(h, ents)):
             info = C.race_info(ent) if C.is_race(op) else None
-            if info is not None and info.get('mode') == 'overlap' and info.get('paused'):
+            # client requests only: races of driver / worker messages (corpus/C04/races.json) are the business of C04, C05, C06, C10
+            if info is not None and info.get('mode') == 'overlap' and info.get('paused') \
+                    and op['first'].get('op') in CLIENT_OPS and op['second'].get('op') in CLIENT_OPS:
                 jobs.append((name, h, i, ent, info))
     serial, meta = [], []
     for name, h, i, ent, info in jobs:
